@@ -80,7 +80,8 @@ void h_util_endian(void) {
 void h_util_loops(void) {
     INPUT(size_t, len); INPUT(size_t, g); INPUT(int, flag);
     unsigned char *s1, *s2, *z, *zz, z0; int r = 0, c = 0;
-    __CPROVER_assume(len >= 1 && len <= UTIL_LEN_MAX && g < len);
+    /* len == 0 is part of the input space (no byte read or written); the ghost index g quantifies over [0, len) */
+    __CPROVER_assume(len <= UTIL_LEN_MAX && (len == 0 || g < len));
     verif_gi = g; verif_allzero = 0;
 #if UTIL_PART & 3
     s1 = malloc(len); __CPROVER_assume(s1 != NULL);
@@ -90,8 +91,9 @@ void h_util_loops(void) {
     zz = calloc(len, 1); __CPROVER_assume(zz != NULL);
     r = secp256k1_is_zero_array(s1, len);
     __CPROVER_assert(r == 0 || r == 1, "C05 is_zero_array: returns 0 or 1");
-    if (r == 1) __CPROVER_assert(s1[g] == 0, "C05 is_zero_array: returns 1 only if every byte is zero");
-    if (s1[g] != 0) __CPROVER_assert(r == 0, "C05 is_zero_array: any non-zero byte gives 0");
+    if (len == 0) __CPROVER_assert(r == 1, "C05 is_zero_array: the empty array is all-zero");
+    if (len > 0 && r == 1) __CPROVER_assert(s1[g] == 0, "C05 is_zero_array: returns 1 only if every byte is zero");
+    if (len > 0 && s1[g] != 0) __CPROVER_assert(r == 0, "C05 is_zero_array: any non-zero byte gives 0");
     verif_allzero = 1;
     __CPROVER_assert(secp256k1_is_zero_array(zz, len) == 1, "C05 is_zero_array: an all-zero array gives 1");
     verif_allzero = 0;
@@ -102,14 +104,16 @@ void h_util_loops(void) {
     /* memcmp_var: 0 iff equal */
     s2 = malloc(len); __CPROVER_assume(s2 != NULL);
     c = secp256k1_memcmp_var(s1, s2, len);
-    if (c == 0) __CPROVER_assert(s1[g] == s2[g], "C05 memcmp_var: returns 0 only if every byte is equal");
-    if (s1[g] != s2[g]) __CPROVER_assert(c != 0, "C05 memcmp_var: any differing byte gives non-zero");
+    if (len == 0) __CPROVER_assert(c == 0, "C05 memcmp_var: empty ranges compare equal");
+    if (len > 0 && c == 0) __CPROVER_assert(s1[g] == s2[g], "C05 memcmp_var: returns 0 only if every byte is equal");
+    if (len > 0 && s1[g] != s2[g]) __CPROVER_assert(c != 0, "C05 memcmp_var: any differing byte gives non-zero");
     __CPROVER_assert(secp256k1_memcmp_var(s1, s1, len) == 0, "C05 memcmp_var: identical arrays compare equal");
 # ifndef UTIL_LC
-    {   /* bounded only: memcmp order semantics = difference at the first differing position */
+    {   /* bounded only: memcmp order semantics = SIGN of the byte difference at the first differing position ("semantics like
+         * memcmp": only the sign of the result is specified) */
         size_t j; int spec = 0;
-        for (j = 0; j < UTIL_LEN_MAX; j++) if (j < len && spec == 0 && s1[j] != s2[j]) spec = (int)s1[j] - (int)s2[j];
-        __CPROVER_assert(c == spec, "C05 memcmp_var: value is the byte difference at the first differing position");
+        for (j = 0; j < UTIL_LEN_MAX; j++) if (j < len && spec == 0 && s1[j] != s2[j]) spec = (s1[j] > s2[j]) ? 1 : -1;
+        __CPROVER_assert(((c > 0) - (c < 0)) == spec, "C05 memcmp_var: sign is that of the first differing byte pair");
     }
 # endif
     if (c == 0) REACH("memcmp_var equal");
@@ -122,21 +126,22 @@ void h_util_loops(void) {
          * must stay untouched (ghost index g2) */
         static unsigned char zbuf[UTIL_LEN_MAX + 8]; INPUT(size_t, g2); unsigned char y0;
         __CPROVER_assume(g2 >= len && g2 < UTIL_LEN_MAX + 8);
-        z = zbuf; z0 = z[g]; y0 = z[g2];
+        z = zbuf; z0 = len ? z[g] : 0; y0 = z[g2];
         __CPROVER_assume(flag == 0 || flag == 1);
         secp256k1_memczero(z, len, flag);
         __CPROVER_assert(z[g2] == y0, "C05 memczero: bytes at and after len untouched");
     }
 # else
     z = malloc(len); __CPROVER_assume(z != NULL);
-    z0 = z[g];
+    z0 = len ? z[g] : 0;
     __CPROVER_assume(flag == 0 || flag == 1);
     secp256k1_memczero(z, len, flag);
 # endif
-    __CPROVER_assert(z[g] == (flag ? 0 : z0), "C05 memczero: every byte zero if flag, unchanged otherwise");
+    if (len > 0) __CPROVER_assert(z[g] == (flag ? 0 : z0), "C05 memczero: every byte of [0,len) zero if flag, unchanged otherwise");   /* len == 0: exact object bounds (heap) resp. the g2 obligation (fixed buffer) show that nothing is written */
     if (flag) REACH("memczero flag set");
 #endif
     if (len == UTIL_LEN_MAX) REACH("maximal length");
+    if (len == 0) REACH("zero length");
     (void)s1; (void)s2; (void)z; (void)zz; (void)z0; (void)r; (void)c;
 }
 #endif
